@@ -195,7 +195,9 @@ func c17GenMsg(r *vg.Rand, which int, h int64, rd int32, hostilePct int, force *
 		case 4:
 			b.total = uint32(types.MaxBlockPartsCount) + 1
 		case 5:
-			b.total = 1 << 20 // 128 KiB bit array: shows the missing bound without exhausting memory
+			// just above the bound up to 2^20 (a 128 KiB bit array: shows a missing bound without
+			// exhausting memory)
+			b.total = uint32(types.MaxBlockPartsCount) + 2 + uint32(r.Intn([]int{4, 64, 1 << 10, 1<<20 - int(types.MaxBlockPartsCount) - 1}[r.Intn(4)]))
 		case 6:
 			b = c17BID{0, 0, 0}
 		case 7:
@@ -233,7 +235,8 @@ func c17GenMsg(r *vg.Rand, which int, h int64, rd int32, hostilePct int, force *
 		height, round := c17Pick64(pick, h, hos("height")), c17Pick32(pick, rd, hos("round"))
 		total := uint32(1 + r.Intn(200))
 		if hos("total") {
-			total = []uint32{0, 1, uint32(types.MaxBlockPartsCount), uint32(types.MaxBlockPartsCount) + 1, 100000}[pick(5)]
+			total = []uint32{0, 1, uint32(types.MaxBlockPartsCount), uint32(types.MaxBlockPartsCount) + 1, 100000,
+				uint32(types.MaxBlockPartsCount) + 2 + uint32(r.Intn(64)), uint32(types.MaxBlockPartsCount) + 2 + uint32(r.Intn(1<<20-int(types.MaxBlockPartsCount)-1))}[pick(7)]
 		}
 		ba := c17BA{int64(total), int((int64(total) + 63) / 64)}
 		if hos("bitarray") {
